@@ -597,6 +597,24 @@ def run_shard(cfg):
             out["distinct"].add(h64("concurrent", variant, S.n))
         for v in (0, 1, 0, 1):
             concurrent(v)
+        # --- (b) for every ephemeral key pair: the two derivation functions of the handshake (the real crypto.ecdh_server /
+        #     crypto.ecdh_client, as _recvClientHello and _recvServerHello call them) agree on a 16-byte key.  Hundreds of fresh
+        #     pairs per shard: properties of the shared secret that occur once in a few hundred pairs (a leading zero byte ...)
+        from mpgameserver import crypto as _K
+        for _i in range(cfg.get("agreements", 400)):
+            sk, ck = EllipticCurvePrivateKey.new(), EllipticCurvePrivateKey.new()
+            try:
+                salt_, k_server = _K.ecdh_server(sk, ck.getPublicKey())
+                k_client = S._orig_ecdh(ck, sk.getPublicKey(), salt_)
+                out["counters"].inc("key_agreements_checked")
+                if k_server != k_client or len(k_client) != 16:
+                    S.case = "key-agreement"
+                    S.viol("keys-differ", "ecdh_server and ecdh_client derive different keys for a fresh pair of ephemeral keys (%d vs %d bytes)" % (len(k_server), len(k_client)))
+                    break
+            except Exception as e:
+                S.case = "key-agreement"
+                S.viol("keys-differ", "key agreement raised %r" % (e,))
+                break
         # --- byte-level mutations of the three handshake datagrams, positions striped over the shards
         sizes = {k: len(v) for k, v in captured.items()}
         plan_ = []
@@ -639,7 +657,7 @@ def finish(tier, seed, results):
     m = merge(results)
     inconclusive = []
     need(m["counters"], ["honest_handshakes", "root_key_signatures", "client_key_derivations", "client_params_in_signed_set",
-                         "signature_verified_independently", "promotions_with_proof", "post_handshake_rewrapped_hellos", "retries_on_same_client_object", "second_sessions_on_same_client_object", "plaintext_challenges_after_unanswered_hello", "hello_bodies_under_other_type_ids", "client_left_unconnected",
+                         "signature_verified_independently", "promotions_with_proof", "post_handshake_rewrapped_hellos", "retries_on_same_client_object", "second_sessions_on_same_client_object", "plaintext_challenges_after_unanswered_hello", "hello_bodies_under_other_type_ids", "key_agreements_checked", "client_left_unconnected",
                          "mutations_type1", "mutations_type2", "mutations_type3", "server_connect_events", "concurrent_pending_pairs"], inconclusive)
     cov = {
         "evaluations": m["evaluations"],
